@@ -607,7 +607,8 @@ def write_evidence(prop, tier, mod, jobs, results, violations, known_hits, undec
     dis = sum(r["discharged"] for r in results.values())
     kinds = sorted(set(j.kind for j in jobs))
     all_proof = bool(jobs) and all(j.kind in ("proof", "static") for j in jobs)
-    level = meta.get("level") or ("proof" if all_proof else "other")
+    # the evidence level is the level claimed in MANIFEST.json; a proof-level claim is downgraded when any job is bounded
+    level = (getattr(mod, "MANIFEST", None) or {}).get("category") or meta.get("level") or ("proof" if all_proof else "other")
     if level == "proof" and not all_proof:
         level = "other"
     per_job = []
